@@ -308,7 +308,7 @@ class Bytes(Stage):
                 rc, out, err = cli.run_main(['-C', '-r', cli.PY, child], stdin=b'q\n', extra_env=dict(WDV_CHILD_SPEC=spec))
                 want = case['exit']
         mode = case['mode']
-        if rc is None:
+        if rc is None or b'Failed to join subprocess thread' in err:
             res.label('timeout(inconclusive)')
             return res
         if b'Traceback' in err:
